@@ -343,8 +343,9 @@ example : ∃ qr s', divmodLL ⟨-7, []⟩ ⟨2, []⟩ (St.init 97 8 8) = .ok (q
 `ValRef` / `ValRefL` (same shape; a plain int is itself; a secret integer or boolean is its `.value`;
 a secret boolean is 0/1 and tagged `bool`), `PyFragment` with the exclusion table `Instr.pyExcl`
 (reasons: `PyExcl`), `PySupported` with the coverage table `Instr.pyGap` (reasons: `PyGap`),
-`InDomain` with `pyDomBin` / `pyDomCall`.  Proofs: `Lemmas/PyRun*.lean` (agreement, one lemma per
-dispatch function, induction over the instruction list) and `Lemmas/PyTotal*.lean` (totality). -/
+`InDomain` with `pyDomBin` / `pyDomCall` / `pyDomIdx`.  Proofs: `Lemmas/PyRun*.lean` (agreement, one
+lemma per dispatch function, induction over the instruction list) and `Lemmas/PyTotal*.lean`
+(totality; secret exponent: `PyTotalExp`, assertions: `PyTotalAssert`, secret index: `PyTotalArr`). -/
 
 /-- **C05, program level, agreement.**  For every prime modulus `p`, every bit length and
 resolution, every program in `PyFragment` (no fixed-point values, no guarded regions, no `set ign`,
@@ -373,16 +374,22 @@ theorem C05_program_prefix (p : ℕ) [hp : Fact p.Prime] (bl res : ℕ) (prog : 
   run_py_err p hp.out bl res prog hfrag e j herr
 
 /-- **C05, program level, totality.**  A program in `PyFragment` whose executed instructions meet
-operand kinds the API supports (`PySupported`: the table `Instr.pyGap`; NOT yet composed, by name:
-a secret exponent / shift count, secret-index array access, the assertion methods) and whose
-REFERENCE run completes inside the documented domain (`InDomain`: the exact bounds of
-`pyDomBin` / `pyDomCall` — comparison differences below `2^bl` in absolute value, `==`/`!=`
-differences zero or non-zero modulo `p`, divisors of `//`, `%`, `divmod` in `(0, 2^bl]`, the divisor
-of `/` not a multiple of `p`, operands of `>>`, `&`, `|`, `^` in `[0, 2^bl)`, 0/1 next to a boolean,
-public exponents ≤ 300 and shift counts ≤ 4096) does not raise. -/
+operand kinds the API supports (`PySupported`: the table `Instr.pyGap`; the only reason left is
+`kinds` — the API raises by type dispatch alone, or both operands are plain) and whose REFERENCE run
+completes inside the documented domain (`InDomain`: the exact bounds of `pyDomBin` / `pyDomCall` /
+`pyDomIdx` on the reference values — comparison differences below `2^bl` in absolute value,
+`==`/`!=` differences zero or non-zero modulo `p`, divisors of `//`, `%`, `divmod` in `(0, 2^bl]`,
+the divisor of `/` not a multiple of `p`, operands of `>>`, `&`, `|`, `^` in `[0, 2^bl)`, 0/1 next to
+a boolean, public exponents ≤ 300 and shift counts ≤ 4096; a SECRET exponent / `<<` count in
+`[0, 2^bl)`, a SECRET `>>` count in `[0, bl]`; a SECRET array index in `[0, len)` with `len ≤ p`;
+for the `assert_*` methods: the asserted relation HOLDS on the reference values and the
+range-checked differences fit `bl` as for the comparison operators, `assert_nonzero` / `assert_ne`:
+invertible modulo `p`, `assert_positive(n)`: `0 ≤ x < 2^n`) does not raise.  `InDomain` replays the
+traced run next to the reference run only to tell a secret exponent / count / index from a public
+one (`secretAt`). -/
 theorem C05_program_total (p : ℕ) [hp : Fact p.Prime] (bl res : ℕ) (prog : List Instr)
     (hfrag : PyFragment (St.init p bl res) prog) (hsup : PySupported (St.init p bl res) prog)
-    (hdom : InDomain p bl prog) (pregs : List PyVal) (hpy : pyRun bl prog = .ok pregs) :
+    (hdom : InDomain (St.init p bl res) prog) (pregs : List PyVal) (hpy : pyRun bl prog = .ok pregs) :
     (run (St.init p bl res) prog).err = none :=
   run_py_total p hp.out bl res prog hfrag hsup hdom pregs hpy
 
@@ -390,7 +397,7 @@ theorem C05_program_total (p : ℕ) [hp : Fact p.Prime] (bl res : ℕ) (prog : L
 and every register is the reference register -/
 theorem C05_program_total_agrees (p : ℕ) [hp : Fact p.Prime] (bl res : ℕ) (prog : List Instr)
     (hfrag : PyFragment (St.init p bl res) prog) (hsup : PySupported (St.init p bl res) prog)
-    (hdom : InDomain p bl prog) (pregs : List PyVal) (hpy : pyRun bl prog = .ok pregs) :
+    (hdom : InDomain (St.init p bl res) prog) (pregs : List PyVal) (hpy : pyRun bl prog = .ok pregs) :
     (run (St.init p bl res) prog).err = none ∧ ValRefL (run (St.init p bl res) prog).regs pregs := by
   have herr := C05_program_total p bl res prog hfrag hsup hdom pregs hpy
   obtain ⟨pregs', h1, h2⟩ := C05_program p bl res prog hfrag _ rfl herr
@@ -401,12 +408,73 @@ theorem C05_program_total_agrees (p : ℕ) [hp : Fact p.Prime] (bl res : ℕ) (p
 /-- the domain on which the harness checks totality — operands below `2^(bl-1)` in absolute value,
 `bl ≥ 1`, `2^(bl+1) < p`, and the operator's side condition `pySideOk` (non-zero divisor for `/`,
 POSITIVE divisor for `//`, `%`, `divmod`, non-negative operands for `>>`, `&`, `|`, `^`, public
-exponent ≤ 300, shift count ≤ 4096, 0/1 next to a boolean) — lies inside the exact bounds
-`pyDomBin` that `C05_program_total` needs -/
+exponent ≤ 300, shift count ≤ 4096, a SECRET exponent / shift count non-negative and for `>>` at
+most `bl`, 0/1 next to a boolean) — lies inside the exact bounds `pyDomBin` that
+`C05_program_total` needs -/
 theorem C05_domain_of_small {p : ℤ} {bl : ℕ} (hbl : 1 ≤ bl) (hp : 2 ^ (bl + 1) < p) {op : BinOp}
-    {ba bb : Bool} {x y : ℤ} (hx : |x| < 2 ^ (bl - 1)) (hy : |y| < 2 ^ (bl - 1))
-    (hs : pySideOk op ba bb x y) : pyDomBin p bl op ba bb x y = true :=
+    {ba bb sb : Bool} {x y : ℤ} (hx : |x| < 2 ^ (bl - 1)) (hy : |y| < 2 ^ (bl - 1))
+    (hs : pySideOk bl op ba bb sb x y) : pyDomBin p bl op ba bb sb x y = true :=
   pyDomBin_of_small hbl hp hx hy hs
+
+/-- … and so does a comparison assertion whose relation holds on operands of that size -/
+theorem C05_assert_domain_of_small {p : ℤ} {bl : ℕ} (hbl : 1 ≤ bl) (hp : 2 ^ (bl + 1) < p) {m : Meth}
+    {x y : ℤ} (hx : |x| < 2 ^ (bl - 1)) (hy : |y| < 2 ^ (bl - 1)) (hr : pyAssertHolds m x y) :
+    pyDomAssertCmp p bl m x y = true :=
+  pyDomAssertCmp_of_small hbl hp hx hy hr
+
+/-! ### the three compositions behind the enlarged coverage, function by function -/
+
+/-- `x ** e` with a SECRET exponent `0 ≤ e < 2^bitlength` does not raise (whatever the base: the
+squares and products are reduced modulo `p`; whether the result is Python's is `C05_program`'s
+matter: exactly when the power does not wrap) -/
+theorem C05_secret_pow_total {s : St} {a e : LinComb} (hg : s.guard = none) (hP : PrimeP s)
+    (h0 : 0 ≤ e.value) (hb : e.value < 2 ^ s.bitlength) : ∃ r, powLL a e s = .ok r :=
+  powLL_total hg hP h0 hb
+
+/-- `x << e`: as `**`; `x >> e` with a SECRET count: `0 ≤ e ≤ bitlength` and `2^e < p` (not
+`powWraps`): the divisor `2^e` is then in `(0, 2^bitlength]` -/
+theorem C05_secret_shift_total {s : St} {x e : LinComb} (hk : PyOk s) (hP : PrimeP s) (h0 : 0 ≤ e.value) :
+    (e.value < 2 ^ s.bitlength → ∃ r, lshiftLV x (.lc e) s = .ok r) ∧
+    (powWraps s.p 2 e.value = false → e.value ≤ s.bitlength → ∃ r, rshiftLV x (.lc e) s = .ok r) :=
+  ⟨fun hb => lshiftLV_lc_total hk.guard hP h0 hb, fun hw hb => rshiftLV_lc_total hk hP hw h0 hb⟩
+
+/-- `a[i]`, `a[i] = v` with a SECRET index `0 ≤ i < len(a) ≤ p` on plain / secret integer elements
+do not raise (the converse for the index is `C15_oob_raises`) -/
+theorem C05_secret_index_total {s : St} {arr : List Val} {it : LinComb} {v : Val} (hk : PyOk s)
+    (hP : PrimeP s) (harr : ∀ x ∈ arr, x.isIntLike = true) (hv : v.isIntLike = true)
+    (h0 : 0 ≤ it.value) (h1 : it.value < arr.length) (hn : (arr.length : ℤ) ≤ s.p) :
+    (∃ r, arrayGet arr (.lc it) s = .ok r) ∧ (∃ r, arraySet arr (.lc it) v s = .ok r) :=
+  ⟨arrayGet_total hk hP harr h0 h1 hn, arraySet_total hk hP harr hv h0 h1 hn⟩
+
+/-- an assertion whose relation HOLDS, with the range-checked difference inside the bit length, does
+not raise (the converse — a false relation raises — is `C03_runtime_relations`) -/
+theorem C05_assert_total {s : St} {a b : LinComb} (hg : s.guard = none) (hP : PrimeP s) :
+    (a.value < b.value → b.value - a.value - 1 < 2 ^ s.bitlength → ∃ r, assertLt a b s = .ok r) ∧
+    (a.value ≤ b.value → b.value - a.value < 2 ^ s.bitlength → ∃ r, assertLe a b s = .ok r) ∧
+    (a.value = b.value → ∃ r, assertEq a b s = .ok r) ∧
+    (a.value ≠ b.value → (a.value - b.value) % s.p ≠ 0 → ∃ r, assertNe a b s = .ok r) ∧
+    (b.value < a.value → a.value - b.value - 1 < 2 ^ s.bitlength → ∃ r, assertGt a b s = .ok r) ∧
+    (b.value ≤ a.value → a.value - b.value < 2 ^ s.bitlength → ∃ r, assertGe a b s = .ok r) ∧
+    (a.value = 0 → ∃ r, assertZero a s = .ok r) ∧
+    (a.value % s.p ≠ 0 → ∃ r, assertNonzero a s = .ok r) ∧
+    (∀ n : Option ℕ, 0 ≤ a.value → a.value < 2 ^ n.getD s.bitlength → ∃ r, assertPositive a n s = .ok r) := by
+  refine ⟨fun h1 h2 => ?_, fun h1 h2 => ?_, fun h1 => ?_, fun h1 h2 => ?_, fun h1 h2 => ?_,
+    fun h1 h2 => ?_, fun h1 => ?_, fun h1 => ?_, fun n h1 h2 => ?_⟩
+  · obtain ⟨s', h, -⟩ := assertLt_total hg h1 h2; exact ⟨_, h⟩
+  · obtain ⟨s', h, -⟩ := assertLe_total hg h1 h2; exact ⟨_, h⟩
+  · obtain ⟨s', h, -⟩ := assertEq_total hg h1; exact ⟨_, h⟩
+  · obtain ⟨s', h, -⟩ := assertNe_total hg hP h1 h2; exact ⟨_, h⟩
+  · obtain ⟨s', h, -⟩ := assertGt_total hg h1 h2; exact ⟨_, h⟩
+  · obtain ⟨s', h, -⟩ := assertGe_total hg h1 h2; exact ⟨_, h⟩
+  · obtain ⟨s', h, -⟩ := assertZero_total hg h1; exact ⟨_, h⟩
+  · obtain ⟨s', h, -⟩ := assertNonzero_total hg hP h1; exact ⟨_, h⟩
+  · obtain ⟨s', h, -⟩ := assertPositive_total (bits := n) hg h1 h2; exact ⟨_, h⟩
+
+/-- `x.assert_range(lo, hi)` with `lo ≤ x < hi`, both differences inside the bit length -/
+theorem C05_assert_range_total {s : St} {x lo hi : LinComb} (hg : s.guard = none)
+    (h1 : lo.value ≤ x.value) (h2 : x.value < hi.value) (hb1 : x.value - lo.value < 2 ^ s.bitlength)
+    (hb2 : hi.value - x.value - 1 < 2 ^ s.bitlength) : ∃ r, assertRange x lo hi s = .ok r := by
+  obtain ⟨s', h, -⟩ := assertRange_total hg h1 h2 hb1 hb2; exact ⟨_, h⟩
 
 /-- the exclusion `secretExponentWraps` is exact: `powWraps p x e` holds precisely when the Python
 power `x ^ e` is outside `[0, p)` (the shortcut for astronomically large powers does not change it) -/
@@ -441,7 +509,8 @@ def pyDemoRef : List PyVal :=
 /-- the program is in the fragment, in the coverage table and in the domain; the reference
 interpreter yields the listed values; the traced run completes with exactly these values -/
 example :
-    PyFragment (St.init 97 5 8) pyDemo ∧ PySupported (St.init 97 5 8) pyDemo ∧ InDomain 97 5 pyDemo ∧
+    PyFragment (St.init 97 5 8) pyDemo ∧ PySupported (St.init 97 5 8) pyDemo ∧
+    InDomain (St.init 97 5 8) pyDemo ∧
     (match pyRun 5 pyDemo with | .ok r => PyVal.eqbL r pyDemoRef | .error _ => false) = true ∧
     (run (St.init 97 5 8) pyDemo).err = none ∧
     ValRefL (run (St.init 97 5 8) pyDemo).regs pyDemoRef := by
@@ -455,7 +524,7 @@ example : ∃ pregs, pyRun 5 pyDemo = .ok pregs ∧
     first | decide +kernel | fail "pyDemo: not in the fragment"
   have hs : PySupported (St.init (97 : ℕ) 5 8) pyDemo := by
     first | decide +kernel | fail "pyDemo: not covered"
-  have hd : InDomain (97 : ℕ) 5 pyDemo := by
+  have hd : InDomain (St.init (97 : ℕ) 5 8) pyDemo := by
     first | decide +kernel | fail "pyDemo: outside the domain"
   cases hr : pyRun 5 pyDemo with
   | error e =>
@@ -463,6 +532,91 @@ example : ∃ pregs, pyRun 5 pyDemo = .ok pregs ∧
       first | decide +kernel | fail "pyDemo: the reference stops"
     rw [hr] at this; cases this
   | ok pregs => exact ⟨pregs, rfl, C05_program_total_agrees 97 5 8 pyDemo hf hs hd pregs hr⟩
+
+/-! ### non-vacuity of the enlarged coverage: secret exponent, secret shifts, secret-index read and
+write, assertions (`p = 97`, 5-bit values) -/
+
+/-- `3 ** PrivVal(3)`, `PrivVal(3) << PrivVal(3)`, `PrivVal(13) >> PrivVal(2)`, an array of a plain
+and two secret integers read and written through the secret index 2, `assert_lt`, `assert_ne`,
+`assert_range`, `assert_positive(4)`, `assert_zero`, `assert_nonzero`, a boolean `assert_eq` -/
+def pyDemo2 : List Instr :=
+  [ .lit (.int 3), .mk .priv 0, .lit (.int 13), .mk .priv 2, .lit (.int 2), .mk .priv 4,
+    .bin .pow 0 1,                      -- 6: 3 ** <3> = 27
+    .bin .lshift 1 1,                   -- 7: <3> << <3> = 24
+    .bin .rshift 3 5,                   -- 8: <13> >> <2> = 3
+    .bin .pow 1 5,                      -- 9: <3> ** <2> = 9
+    .lit (.int 7), .arr [10, 1, 3],     -- 11: [7, <3>, <13>]
+    .aget 11 5,                         -- 12: a[<2>] = 13
+    .aset 11 5 1,                       -- 13: a[<2>] = <3>
+    .aget 11 5,                         -- 14: a[<2>] = 3
+    .call .assertLt 1 [3],              -- 15: <3>.assert_lt(<13>)
+    .call .assertNe 3 [0],              -- 16: <13>.assert_ne(3)
+    .call .assertRange 1 [4, 3],        -- 17: <3>.assert_range(2, <13>)
+    .lit (.int 4), .call .assertPositive 3 [18],   -- 19: <13>.assert_positive(4)
+    .bin .sub 14 1, .call .assertZero 20 [],       -- 21: (a[<2>] - <3>).assert_zero()
+    .call .assertNonzero 12 [],         -- 22
+    .bin .lt 1 3, .lit (.int 1), .call .assertEq 23 [24] ]   -- 25: (<3> < <13>).assert_eq(1)
+
+/-- the reference values of `pyDemo2`, register by register (register 11 is the array AFTER the
+write: the reference has Python's list semantics) -/
+def pyDemo2Ref : List PyVal :=
+  [ .int 3, .int 3, .int 13, .int 13, .int 2, .int 2,
+    .int 27, .int 24, .int 3, .int 9,
+    .int 7, .list [.int 7, .int 3, .int 3], .int 13, .none, .int 3,
+    .none, .none, .none, .int 4, .none, .int 0, .none, .none,
+    .bool 1, .int 1, .none ]
+
+/-- in the fragment, covered (no gap left for a secret exponent, a secret index, an assertion), in
+the domain; the reference yields the listed values; the traced run completes with these values -/
+example :
+    PyFragment (St.init 97 5 8) pyDemo2 ∧ PySupported (St.init 97 5 8) pyDemo2 ∧
+    InDomain (St.init 97 5 8) pyDemo2 ∧
+    (match pyRun 5 pyDemo2 with | .ok r => PyVal.eqbL r pyDemo2Ref | .error _ => false) = true ∧
+    (run (St.init 97 5 8) pyDemo2).err = none ∧
+    ValRefL (run (St.init 97 5 8) pyDemo2).regs pyDemo2Ref := by
+  refine ⟨?_, ?_, ?_, ?_, ?_, ?_⟩ <;> first | decide +kernel | fail "pyDemo2: closed evaluation failed"
+
+/-- `C05_program_total_agrees` applied to `pyDemo2` -/
+example : ∃ pregs, pyRun 5 pyDemo2 = .ok pregs ∧
+    (run (St.init 97 5 8) pyDemo2).err = none ∧ ValRefL (run (St.init 97 5 8) pyDemo2).regs pregs := by
+  haveI : Fact (Nat.Prime 97) := ⟨by norm_num⟩
+  have hf : PyFragment (St.init (97 : ℕ) 5 8) pyDemo2 := by
+    first | decide +kernel | fail "pyDemo2: not in the fragment"
+  have hs : PySupported (St.init (97 : ℕ) 5 8) pyDemo2 := by
+    first | decide +kernel | fail "pyDemo2: not covered"
+  have hd : InDomain (St.init (97 : ℕ) 5 8) pyDemo2 := by
+    first | decide +kernel | fail "pyDemo2: outside the domain"
+  cases hr : pyRun 5 pyDemo2 with
+  | error e =>
+    have : (match pyRun 5 pyDemo2 with | .ok _ => true | .error _ => false) = true := by
+      first | decide +kernel | fail "pyDemo2: the reference stops"
+    rw [hr] at this; cases this
+  | ok pregs => exact ⟨pregs, rfl, C05_program_total_agrees 97 5 8 pyDemo2 hf hs hd pregs hr⟩
+
+/-- the new side conditions are not vacuous, and they are where the traced run DOES raise: each of
+these programs is in the fragment and covered, is OUTSIDE `InDomain` for the stated reason only, the
+reference run completes (the assertion methods are `None` there), and the traced run raises at that
+instruction — a secret `>>` count above the bit length (`PrivVal(13) >> PrivVal(6)`, `bl = 5`:
+Python gives 0; the gadget floor-divides by the secret `2^6 > 2^bl`), a negative secret index
+(`a[PrivVal(-1)]`: Python gives the last element; `IndexError`, C15), an assertion whose relation is
+false (`PrivVal(7).assert_lt(7)`: `AssertionError`, C03) -/
+example :
+    (let prog : List Instr := [.lit (.int 13), .mk .priv 0, .lit (.int 6), .mk .priv 2, .bin .rshift 1 3]
+     PyFragment (St.init 97 5 8) prog ∧ PySupported (St.init 97 5 8) prog ∧
+       ¬ InDomain (St.init 97 5 8) prog ∧ (run (St.init 97 5 8) prog).err = some (.assertion, 4) ∧
+       (match pyRun 5 prog with | .ok r => PyVal.eqbL r [.int 13, .int 13, .int 6, .int 6, .int 0]
+                                | .error _ => false) = true) ∧
+    (let prog : List Instr := [.lit (.int 7), .lit (.int (-1)), .mk .priv 1, .arr [0, 0], .aget 3 2]
+     PyFragment (St.init 97 5 8) prog ∧ PySupported (St.init 97 5 8) prog ∧
+       ¬ InDomain (St.init 97 5 8) prog ∧ (run (St.init 97 5 8) prog).err = some (.index, 4) ∧
+       (match pyRun 5 prog with | .ok r => PyVal.eqbL r [.int 7, .int (-1), .int (-1), .list [.int 7, .int 7], .int 7]
+                                | .error _ => false) = true) ∧
+    (let prog : List Instr := [.lit (.int 7), .mk .priv 0, .call .assertLt 1 [0]]
+     PyFragment (St.init 97 5 8) prog ∧ PySupported (St.init 97 5 8) prog ∧
+       ¬ InDomain (St.init 97 5 8) prog ∧ (run (St.init 97 5 8) prog).err = some (.assertion, 2) ∧
+       (match pyRun 5 prog with | .ok r => PyVal.eqbL r [.int 7, .int 7, .none] | .error _ => false) = true) := by
+  refine ⟨⟨?_, ?_, ?_, ?_, ?_⟩, ⟨?_, ?_, ?_, ?_, ?_⟩, ⟨?_, ?_, ?_, ?_, ?_⟩⟩ <;>
+    first | decide +kernel | fail "domain side conditions: closed evaluation failed"
 
 /-- the exclusions are not vacuous either: `~x` on a secret integer is rejected by name -/
 example : pyFirstExcl [.lit (.int 5), .mk .priv 0, .un .invert 1] 0 [] [] (St.init 97 8 8) =
